@@ -329,8 +329,10 @@ class Ctx:
         ev = {"property_id": self.pid, "tier": self.tier, "seed": self.seed, "level": level, "coverage": cov,
               "assumptions": self.assumptions, "wall_s": round(time.time() - self.t0, 1),
               "violations": len(self.violations)}
-        with open(os.path.join(EVIDENCE, self.pid + ".json"), "w") as f:
-            json.dump(ev, f, indent=1)
+        # the evidence file describes a run of the quick or thorough command; replaying one scenario does not replace it
+        if not getattr(self, "replay", None):
+            with open(os.path.join(EVIDENCE, self.pid + ".json"), "w") as f:
+                json.dump(ev, f, indent=1)
         if not os.environ.get("VERIF_KEEP"):
             shutil.rmtree(self.work, ignore_errors=True)
         log("%s %s: %s in %.0fs (states=%d, scenarios=%d, traces validated=%d, known findings=%d)" % (
@@ -452,6 +454,7 @@ def main(check_fn, pid):
     a = ap.parse_args(sys.argv[2:])
     seed = int(os.environ.get("VERIF_SEED", "1"))
     ctx = Ctx(pid, a.tier, seed)
+    ctx.replay = a.replay
     try:
         rc = check_fn(ctx, a.replay)
     except ToolError as e:
